@@ -46,7 +46,12 @@ func (f *Frame) exec(in ssa.Instruction, at string, st *State) {
 		pt := x.Type().Underlying().(*types.Pointer)
 		r := vc.define(f.nm(x.Name()), "Int", st.alloc)
 		st.alloc = vc.define(f.nm("alloc"), "Int", "(+ "+st.alloc+" 1)")
-		comp := vc.S.cellComp(pt.Elem())
+		var comp *Component
+		if _, isArr := pt.Elem().Underlying().(*types.Array); isArr {
+			comp = vc.S.arrComp(vc.P.allocArrayType(x))
+		} else {
+			comp = vc.S.cellComp(pt.Elem())
+		}
 		h := vc.heapOf(st, comp)
 		st.heap[comp.Name] = vc.define(comp.Name, comp.Sort, sto(h, r, vc.zero(pt.Elem())))
 		f.env[x] = &Val{T: r}
@@ -329,7 +334,7 @@ func (f *Frame) convert(x *ssa.Convert, at string, st *State) string {
 		return vc.define(f.nm(x.Name()), "Int", wrapInt(to, v))
 	case isString(from) && isByteSlice(to):
 		// fresh array holding the bytes of the string
-		comp := vc.S.arrComp(types.Typ[types.Byte])
+		comp := vc.S.arrComp(to)
 		arr := vc.define(f.nm(x.Name()+"_arr"), "Int", st.alloc)
 		st.alloc = vc.define(f.nm("alloc"), "Int", "(+ "+st.alloc+" 1)")
 		inner := vc.declare(f.nm(x.Name()+"_bytes"), "(Array Int Int)")
@@ -339,7 +344,7 @@ func (f *Frame) convert(x *ssa.Convert, at string, st *State) string {
 		vc.assume(at, eq(fmt.Sprintf("(bview %s 0 (strlen %s))", inner, v), "(bytes_of_str "+v+")"), "[]byte(string)")
 		return s
 	case isByteSlice(from) && isString(to):
-		comp := vc.S.arrComp(types.Typ[types.Byte])
+		comp := vc.S.arrComp(from)
 		h := vc.heapOf(st, comp)
 		r := vc.define(f.nm(x.Name()), "Str", fmt.Sprintf("(str_of_bytes (bview (select %s (s_arr %s)) (s_off %s) (s_len %s)))", h, v, v, v))
 		vc.assume(at, eq("(strlen "+r+")", "(s_len "+v+")"), "string([]byte) length")
@@ -503,7 +508,7 @@ func (f *Frame) indexAddr(x *ssa.IndexAddr, at string, st *State) *Val {
 	case *types.Slice:
 		s := f.term(x.X)
 		f.safe("index", x, at, fmt.Sprintf("(and (<= 0 %s) (< %s (s_len %s)))", idx, idx, s))
-		return &Val{A: &Addr{Comp: vc.S.arrComp(t.Elem()), Ref: "(s_arr " + s + ")", Idx: vc.define(f.nm("ix"), "Int", "(+ (s_off "+s+") "+idx+")"), Typ: t.Elem()}}
+		return &Val{A: &Addr{Comp: vc.S.arrComp(x.X.Type()), Ref: "(s_arr " + s + ")", Idx: "(ix (s_off " + s + ") " + idx + ")", Typ: t.Elem()}}
 	case *types.Pointer:
 		arr := t.Elem().Underlying().(*types.Array)
 		base := f.val(x.X)
@@ -523,7 +528,7 @@ func (f *Frame) indexAddr(x *ssa.IndexAddr, at string, st *State) *Val {
 			f.safe("nil", x, at, not(eq(ref, "0")))
 		}
 		f.safe("index", x, at, fmt.Sprintf("(and (<= 0 %s) (< %s %s))", idx, idx, n))
-		return &Val{A: &Addr{Comp: vc.S.arrComp(arr.Elem()), Ref: ref, Idx: idx, Typ: arr.Elem()}}
+		return &Val{A: &Addr{Comp: vc.S.arrComp(vc.P.arrayTypeOf(x.X)), Ref: ref, Idx: idx, Typ: arr.Elem()}}
 	}
 	panic(unsupported{"IndexAddr on " + x.X.Type().String()})
 }
@@ -598,10 +603,11 @@ func (f *Frame) sliceOp(x *ssa.Slice, at string, st *State) *Val {
 	panic(unsupported{"Slice on " + x.X.Type().String()})
 }
 
-// allocArr allocates a fresh backing array of element type E.
-func (f *Frame) allocArr(E types.Type, hint string, st *State, zeroed bool) (arr string, comp *Component) {
+// allocArr allocates a fresh backing array for slices of type T.
+func (f *Frame) allocArr(T types.Type, hint string, st *State, zeroed bool) (arr string, comp *Component) {
 	vc := f.vc
-	comp = vc.S.arrComp(E)
+	comp = vc.S.arrComp(T)
+	E := T.Underlying().(*types.Slice).Elem()
 	arr = vc.define(f.nm(hint+"_arr"), "Int", st.alloc)
 	st.alloc = vc.define(f.nm("alloc"), "Int", "(+ "+st.alloc+" 1)")
 	h := vc.heapOf(st, comp)
@@ -620,7 +626,8 @@ func (f *Frame) makeSlice(x *ssa.MakeSlice, at string, st *State) *Val {
 	ln, cp := f.term(x.Len), f.term(x.Cap)
 	f.safe("makeslice", x, at, fmt.Sprintf("(and (<= 0 %s) (<= %s %s) (<= %s %s))", ln, ln, cp, cp, maxLen))
 	E := x.Type().Underlying().(*types.Slice).Elem()
-	arr, _ := f.allocArr(E, x.Name(), st, true)
+	_ = E
+	arr, _ := f.allocArr(x.Type(), x.Name(), st, true)
 	return &Val{T: vc.define(f.nm(x.Name()), "Slice", fmt.Sprintf("(mk_slice %s 0 %s %s)", arr, ln, cp))}
 }
 
